@@ -488,7 +488,8 @@ size_t ZSTD_seekable_initAdvanced(ZSTD_seekable* zs, ZSTD_seekable_customFile sr
 size_t ZSTD_seekable_decompress(ZSTD_seekable* zs, void* dst, size_t len, unsigned long long offset)
 {
     unsigned long long const eos = zs->seekTable.entries[zs->seekTable.tableLen].dOffset;
-    if (offset + len > eos) {
+    if (offset >= eos) return 0;   /* nothing there (also keeps the clamp below from wrapping) */
+    if (len > eos - offset) {
         len = eos - offset;
     }
 
